@@ -47,7 +47,7 @@ pub mod verif_kani {
 
     // ---- C03/C01: calculate_interleaved, one harness per length L of the stripped secret ---------------------------------
     // as_equal_slice is replaced by its proved contract for the concrete case: the last L bytes of S (contents unconstrained).
-    fn interleaved_for<const L: usize>() {
+    fn interleaved_for<const L: usize>() -> bool {
         let key: [u8; 32] = kani::any();
         let s = crate::key::SKey::from_le_bytes(key);
         let k = calculate_interleaved(&s);
@@ -66,42 +66,43 @@ pub mod verif_kani {
             ok &= out[2 * i + 1] == token_byte(2, i);
             i += 1;
         }
-        kani::cover!(true);
-        assert!(ok, "C03 calculate_interleaved: K = zip(SHA1(even bytes of strip(S)), SHA1(odd bytes of strip(S)))");
+        ok
     }
     macro_rules! interleaved_harness {
-        ($name:ident, $stub:ident, $l:expr) => {
+        ($name:ident, $cex:ident, $stub:ident, $l:expr) => {
             pub fn $stub(s: &crate::key::SKey) -> &[u8] { &s.as_le_bytes()[32 - $l..] }
             #[kani::proof]
             #[kani::unwind(66)]
             #[kani::stub(sha1::compress::compress, compress_stub)]
             #[kani::stub(crate::key::SKey::as_equal_slice, $stub)]
-            pub fn $name() { interleaved_for::<$l>(); }
+            pub fn $name() { let ok = interleaved_for::<$l>(); kani::cover!(ok); assert!(ok, "C03 calculate_interleaved: K = zip(SHA1(even bytes of strip(S)), SHA1(odd bytes of strip(S)))"); }
+            #[kani::proof]
+            #[kani::unwind(66)]
+            #[kani::stub(sha1::compress::compress, compress_stub)]
+            #[kani::stub(crate::key::SKey::as_equal_slice, $stub)]
+            pub fn $cex() { let ok = interleaved_for::<$l>(); kani::cover!(!ok, "counterexample"); }
         };
     }
-    interleaved_harness!(c03_interleaved_00, strip_stub_00, 0);
-    interleaved_harness!(c03_interleaved_02, strip_stub_02, 2);
-    interleaved_harness!(c03_interleaved_04, strip_stub_04, 4);
-    interleaved_harness!(c03_interleaved_06, strip_stub_06, 6);
-    interleaved_harness!(c03_interleaved_08, strip_stub_08, 8);
-    interleaved_harness!(c03_interleaved_10, strip_stub_10, 10);
-    interleaved_harness!(c03_interleaved_12, strip_stub_12, 12);
-    interleaved_harness!(c03_interleaved_14, strip_stub_14, 14);
-    interleaved_harness!(c03_interleaved_16, strip_stub_16, 16);
-    interleaved_harness!(c03_interleaved_18, strip_stub_18, 18);
-    interleaved_harness!(c03_interleaved_20, strip_stub_20, 20);
-    interleaved_harness!(c03_interleaved_22, strip_stub_22, 22);
-    interleaved_harness!(c03_interleaved_24, strip_stub_24, 24);
-    interleaved_harness!(c03_interleaved_26, strip_stub_26, 26);
-    interleaved_harness!(c03_interleaved_28, strip_stub_28, 28);
-    interleaved_harness!(c03_interleaved_30, strip_stub_30, 30);
-    interleaved_harness!(c03_interleaved_32, strip_stub_32, 32);
+    interleaved_harness!(c03_interleaved_00, c03_interleaved_00_cex, strip_stub_00, 0);
+    interleaved_harness!(c03_interleaved_02, c03_interleaved_02_cex, strip_stub_02, 2);
+    interleaved_harness!(c03_interleaved_04, c03_interleaved_04_cex, strip_stub_04, 4);
+    interleaved_harness!(c03_interleaved_06, c03_interleaved_06_cex, strip_stub_06, 6);
+    interleaved_harness!(c03_interleaved_08, c03_interleaved_08_cex, strip_stub_08, 8);
+    interleaved_harness!(c03_interleaved_10, c03_interleaved_10_cex, strip_stub_10, 10);
+    interleaved_harness!(c03_interleaved_12, c03_interleaved_12_cex, strip_stub_12, 12);
+    interleaved_harness!(c03_interleaved_14, c03_interleaved_14_cex, strip_stub_14, 14);
+    interleaved_harness!(c03_interleaved_16, c03_interleaved_16_cex, strip_stub_16, 16);
+    interleaved_harness!(c03_interleaved_18, c03_interleaved_18_cex, strip_stub_18, 18);
+    interleaved_harness!(c03_interleaved_20, c03_interleaved_20_cex, strip_stub_20, 20);
+    interleaved_harness!(c03_interleaved_22, c03_interleaved_22_cex, strip_stub_22, 22);
+    interleaved_harness!(c03_interleaved_24, c03_interleaved_24_cex, strip_stub_24, 24);
+    interleaved_harness!(c03_interleaved_26, c03_interleaved_26_cex, strip_stub_26, 26);
+    interleaved_harness!(c03_interleaved_28, c03_interleaved_28_cex, strip_stub_28, 28);
+    interleaved_harness!(c03_interleaved_30, c03_interleaved_30_cex, strip_stub_30, 30);
+    interleaved_harness!(c03_interleaved_32, c03_interleaved_32_cex, strip_stub_32, 32);
 
     // ---- C03: calculate_xor_hash(N, g) = H(N) xor H([g]) for every announced N, g -------------------------------------
-    #[kani::proof]
-    #[kani::unwind(66)]
-    #[kani::stub(sha1::compress::compress, compress_stub)]
-    pub fn c03_xor_hash() {
+    fn xor_hash_body() -> bool {
         let n: [u8; 32] = kani::any();
         let g: u8 = kani::any();
         let r = calculate_xor_hash(&LargeSafePrime::from_le_bytes(n), &Generator::from(g));
@@ -113,9 +114,16 @@ pub mod verif_kani {
         let out = r.as_le_bytes();
         let mut i = 0;
         while i < 20 { ok &= out[i] == token_byte(1, i) ^ token_byte(2, i); i += 1; }
-        kani::cover!(true);
-        assert!(ok, "C03 calculate_xor_hash = SHA1(N) xor SHA1([g])");
+        ok
     }
+    #[kani::proof]
+    #[kani::unwind(66)]
+    #[kani::stub(sha1::compress::compress, compress_stub)]
+    pub fn c03_xor_hash() { let ok = xor_hash_body(); kani::cover!(ok); assert!(ok, "C03 calculate_xor_hash = SHA1(N) xor SHA1([g])"); }
+    #[kani::proof]
+    #[kani::unwind(66)]
+    #[kani::stub(sha1::compress::compress, compress_stub)]
+    pub fn c03_xor_hash_cex() { let ok = xor_hash_body(); kani::cover!(!ok, "counterexample"); }
 
     // ---- C03: the constant PRECALCULATED_XOR_HASH equals H(N) xor H(7): the crate's real (software) SHA-1 executed by CBMC
     // on the concrete built-in group. Only the CPU-feature dispatch is bypassed (x86 intrinsics are not modelled by Kani).
@@ -161,6 +169,134 @@ pub mod verif_kani {
 #[cfg(all(test, gtker_wow_srp_verif))]
 mod verif_search {
     use super::*;
+    use num_bigint::{BigInt, Sign};
+    struct Rng(u64);
+    impl Rng { fn next(&mut self) -> u64 { self.0 ^= self.0 << 13; self.0 ^= self.0 >> 7; self.0 ^= self.0 << 17; self.0 } fn bytes<const N: usize>(&mut self) -> [u8; N] { let mut b = [0u8; N]; for x in b.iter_mut() { *x = self.next() as u8; } b } }
+    fn seed() -> u64 { std::env::var("VERIF_SEED").ok().and_then(|s| s.parse::<u64>().ok()).unwrap_or(0) ^ 0x9E3779B97F4A7C15 }
+    fn h(parts: &[&[u8]]) -> [u8; 20] { let mut d = Sha1::new(); for p in parts { d.update(p); } d.finalize().into() }
+    fn le(b: &[u8]) -> BigInt { BigInt::from_bytes_le(Sign::Plus, b) }
+    fn pad32(v: &BigInt) -> [u8; 32] { let (_, b) = v.to_bytes_le(); let mut o = [0u8; 32]; o[..b.len()].copy_from_slice(&b); o }
+    /// independent reference for the interleave (written from RFC 2945 / the statement)
+    fn ref_interleave(s: &[u8; 32]) -> [u8; 40] {
+        let mut t: &[u8] = &s[..];
+        while !t.is_empty() && t[0] == 0 { t = &t[1..]; }
+        if t.len() % 2 == 1 { t = &t[1..]; }
+        let ev: Vec<u8> = t.iter().step_by(2).copied().collect();
+        let od: Vec<u8> = t.iter().skip(1).step_by(2).copied().collect();
+        let (g, hh) = (h(&[&ev]), h(&[&od]));
+        let mut k = [0u8; 40];
+        for i in 0..20 { k[2 * i] = g[i]; k[2 * i + 1] = hh[i]; }
+        k
+    }
+
+    /// calculate_xor_hash against SHA1(N) xor SHA1([g]): random groups and the built-in prime with every generator
+    #[test]
+    fn verif_search_c03_xor_hash() {
+        let mut rng = Rng(seed());
+        let mut n = 0u64;
+        let mut cases: Vec<([u8; 32], u8)> = (0..=255u8).map(|g| (crate::LARGE_SAFE_PRIME_LITTLE_ENDIAN, g)).collect();
+        for _ in 0..2000 { cases.push((rng.bytes::<32>(), rng.next() as u8)); }
+        for (nn, g) in cases {
+            n += 1;
+            let got = calculate_xor_hash(&LargeSafePrime::from_le_bytes(nn), &Generator::from(g));
+            let (a, b) = (h(&[&nn]), h(&[&[g]]));
+            let mut want = [0u8; 20]; for i in 0..20 { want[i] = a[i] ^ b[i]; }
+            if *got.as_le_bytes() != want { println!("REPLAY-FAIL c03_xor_hash N={:02x?} g={} (result is not SHA1(N) xor SHA1([g]))", &nn[..4], g); return; }
+        }
+        println!("REPLAY-STATS c03_xor_hash inputs={} all-ok", n);
+    }
+
+    /// calculate_interleaved for every count of leading zero bytes (0..=32), with the byte after an odd run zero and non-zero
+    #[test]
+    fn verif_search_c03_interleaved() {
+        let mut rng = Rng(seed());
+        let mut n = 0u64;
+        for round in 0..50 { for lead in 0..=32usize { for variant in 0..3 {
+            let mut s = rng.bytes::<32>();
+            for b in s.iter_mut() { if *b == 0 { *b = 1; } }
+            for i in 0..lead { s[i] = 0; }
+            if variant == 1 && lead + 1 < 32 { s[lead + 1] = 0; }
+            if variant == 2 && lead + 2 < 32 { s[lead + 2] = 0; }
+            n += 1;
+            let got = calculate_interleaved(&SKey::from_le_bytes(s));
+            if *got.as_le_bytes() != ref_interleave(&s) { println!("REPLAY-FAIL c03_interleaved S={:02x?} (round {})", s, round); return; }
+        } } }
+        println!("REPLAY-STATS c03_interleaved inputs={} all-ok", n);
+    }
+
+    /// every internal SRP function against an independent num-bigint/SHA-1 implementation of the WoW SRP6 definition
+    #[test]
+    fn verif_search_c03_functions() {
+        let mut rng = Rng(seed());
+        let nn = le(&crate::LARGE_SAFE_PRIME_LITTLE_ENDIAN);
+        let g = BigInt::from(7);
+        let mut n = 0u64;
+        for round in 0..300 {
+            let ulen = 1 + (rng.next() % 16) as usize; let plen = 1 + (rng.next() % 16) as usize;
+            let uname: String = (0..ulen).map(|_| (0x20 + (rng.next() % 0x5f) as u8) as char).collect();
+            let pass: String = (0..plen).map(|_| (0x20 + (rng.next() % 0x5f) as u8) as char).collect();
+            let u = NormalizedString::new(&uname).unwrap(); let p = NormalizedString::new(&pass).unwrap();
+            let (uu, pp) = (uname.to_ascii_uppercase(), pass.to_ascii_uppercase());
+            let salt = rng.bytes::<32>();
+            let mut b = rng.bytes::<32>(); let mut a = rng.bytes::<32>();
+            if round % 7 == 0 { for i in 8..32 { b[i] = 0; } }           // small private keys
+            if round % 11 == 0 { a = [0u8; 32]; a[0] = (round % 5) as u8; }
+            n += 1;
+            let x = h(&[&salt, &h(&[uu.as_bytes(), b":", pp.as_bytes()])]);
+            if *calculate_x(&u, &p, &Salt::from_le_bytes(salt)).as_le_bytes() != x { println!("REPLAY-FAIL c03_functions calculate_x user={:?}", uname); return; }
+            let v = g.modpow(&le(&x), &nn);
+            let vb = calculate_password_verifier(&u, &p, &Salt::from_le_bytes(salt));
+            if vb != pad32(&v) { println!("REPLAY-FAIL c03_functions calculate_password_verifier user={:?} pass={:?}", uname, pass); return; }
+            let bpub = (BigInt::from(3) * &v + g.modpow(&le(&b), &nn)) % &nn;
+            let bb = match calculate_server_public_key(&Verifier::from_le_bytes(vb), &PrivateKey::from_le_bytes(b)) { Ok(k) => k, Err(_) => continue };
+            if *bb.as_le_bytes() != pad32(&bpub) { println!("REPLAY-FAIL c03_functions calculate_server_public_key b={:02x?}", &b[..4]); return; }
+            let apub = g.modpow(&le(&a), &nn);
+            let aa = match PublicKey::from_le_bytes(pad32(&apub)) { Ok(k) => k, Err(_) => continue };
+            let uhash = h(&[&pad32(&apub), &pad32(&bpub)]);
+            if *calculate_u(&aa, &bb).as_le_bytes() != uhash { println!("REPLAY-FAIL c03_functions calculate_u"); return; }
+            let s_srv = (&apub * v.modpow(&le(&uhash), &nn)).modpow(&le(&b), &nn);
+            let sk = calculate_S(&aa, &Verifier::from_le_bytes(vb), &Sha1Hash::from_le_bytes(uhash), &PrivateKey::from_le_bytes(b));
+            if *sk.as_le_bytes() != pad32(&s_srv) { println!("REPLAY-FAIL c03_functions calculate_S a={:02x?} b={:02x?}", &a[..4], &b[..4]); return; }
+            let s_cli = crate::srp_internal_client::calculate_client_S(&bb, &Sha1Hash::from_le_bytes(x), &PrivateKey::from_le_bytes(a), &Sha1Hash::from_le_bytes(uhash), &Generator::default(), &LargeSafePrime::default());
+            if s_cli.as_le_bytes() != sk.as_le_bytes() { println!("REPLAY-FAIL c03_functions client and server secrets differ a={:02x?} b={:02x?}", &a[..4], &b[..4]); return; }
+            let k = ref_interleave(&pad32(&s_srv));
+            let kk = calculate_session_key(&aa, &bb, &Verifier::from_le_bytes(vb), &PrivateKey::from_le_bytes(b));
+            if *kk.as_le_bytes() != k { println!("REPLAY-FAIL c03_functions calculate_session_key"); return; }
+            let (hn, hg) = (h(&[&crate::LARGE_SAFE_PRIME_LITTLE_ENDIAN]), h(&[&[7u8]]));
+            let mut xh = [0u8; 20]; for i in 0..20 { xh[i] = hn[i] ^ hg[i]; }
+            let m1 = h(&[&xh, &h(&[uu.as_bytes()]), &salt, &pad32(&apub), &pad32(&bpub), &k]);
+            if *calculate_client_proof(&u, &kk, &aa, &bb, &Salt::from_le_bytes(salt)).as_le_bytes() != m1 { println!("REPLAY-FAIL c03_functions calculate_client_proof"); return; }
+            let m1c = crate::srp_internal_client::calculate_client_proof_with_custom_value(&u, &kk, &aa, &bb, &Salt::from_le_bytes(salt), LargeSafePrime::default(), Generator::default());
+            if *m1c.as_le_bytes() != m1 { println!("REPLAY-FAIL c03_functions calculate_client_proof_with_custom_value"); return; }
+            let m2 = h(&[&pad32(&apub), &m1, &k]);
+            if *calculate_server_proof(&aa, &Proof::from_le_bytes(m1), &kk).as_le_bytes() != m2 { println!("REPLAY-FAIL c03_functions calculate_server_proof"); return; }
+            let (cd, sd) = (rng.bytes::<16>(), rng.bytes::<16>());
+            let rp = h(&[uu.as_bytes(), &cd, &sd, &k]);
+            if *calculate_reconnect_proof(&u, &ReconnectData::from_le_bytes(cd), &ReconnectData::from_le_bytes(sd), &kk).as_le_bytes() != rp { println!("REPLAY-FAIL c03_functions calculate_reconnect_proof"); return; }
+        }
+        // announced small groups on the client: every S class (leading zero bytes) is reached quickly
+        for (pn, pg) in [(65537u32, 3u8), (2147483647, 7), (251, 6), (4294967291, 2)] {
+            let mut nle = [0u8; 32]; nle[..4].copy_from_slice(&pn.to_le_bytes());
+            let (bn, bg) = (BigInt::from(pn), BigInt::from(pg));
+            for _ in 0..200 {
+                let (a, x, uh) = (rng.bytes::<32>(), rng.bytes::<20>(), rng.bytes::<20>());
+                let bval = 1 + rng.next() % (pn as u64 - 1); let mut bpub = [0u8; 32]; bpub[..8].copy_from_slice(&bval.to_le_bytes());
+                let bb = match PublicKey::from_le_bytes(bpub) { Ok(k) => k, Err(_) => continue };
+                n += 1;
+                let base = BigInt::from(bval) - BigInt::from(3) * bg.modpow(&le(&x), &bn);
+                let want = base.modpow(&(le(&a) + le(&uh) * le(&x)), &bn);
+                let got = crate::srp_internal_client::calculate_client_S(&bb, &Sha1Hash::from_le_bytes(x), &PrivateKey::from_le_bytes(a), &Sha1Hash::from_le_bytes(uh), &Generator::from(pg), &LargeSafePrime::from_le_bytes(nle));
+                if *got.as_le_bytes() != pad32(&want) { println!("REPLAY-FAIL c03_functions calculate_client_S N={} g={} B={}", pn, pg, bval); return; }
+                if pad32(&want) != [0u8; 32] && *calculate_interleaved(&got).as_le_bytes() != ref_interleave(&pad32(&want)) { println!("REPLAY-FAIL c03_functions interleave of S={:02x?}", &pad32(&want)[..6]); return; }
+                let apub = crate::srp_internal_client::calculate_client_public_key(&PrivateKey::from_le_bytes(a), &Generator::from(pg), &LargeSafePrime::from_le_bytes(nle));
+                let wa = bg.modpow(&le(&a), &bn);
+                match apub { Ok(k) => { if *k.as_le_bytes() != pad32(&wa) { println!("REPLAY-FAIL c03_functions calculate_client_public_key N={} g={}", pn, pg); return; } }
+                             Err(_) => { if wa != BigInt::from(0) { println!("REPLAY-FAIL c03_functions calculate_client_public_key refused a valid key N={}", pn); return; } } }
+            }
+        }
+        println!("REPLAY-STATS c03_functions inputs={} all-ok", n);
+    }
+
     #[test]
     fn verif_search_c03_precalculated_xor_hash() {
         let r = calculate_xor_hash(&LargeSafePrime::default(), &Generator::default());
